@@ -1,4 +1,5 @@
 import ShmVerif.Proof.SlotSys
+import ShmVerif.Proof.LBReadMore
 /-!
   The stream pair as two byte queues: every operation of either end, in any order, any number of messages in flight in
   both directions, both transports - the bytes a reader call returns are the next bytes the peer flushed.
@@ -722,19 +723,21 @@ def qstep (q : QSys) : POp → QSys × List Nat
   | .readBytes x n => (q.set (!x) { (q.dir (!x)) with flushed := (q.dir (!x)).flushed.drop n }, (q.dir (!x)).flushed.take n)
   | .peek x n => (q, (q.dir (!x)).flushed.take n)
   | .discard x n => (q.set (!x) { (q.dir (!x)) with flushed := (q.dir (!x)).flushed.drop n }, [])
+  | .readString x n => (q.set (!x) { (q.dir (!x)) with flushed := (q.dir (!x)).flushed.drop n }, (q.dir (!x)).flushed.take n)
+  | .readInto x n => (q.set (!x) { (q.dir (!x)) with flushed := (q.dir (!x)).flushed.drop n }, (q.dir (!x)).flushed.take n)
   | .release _ => (q, [])
   | .close x => ((q.set x { (q.dir x) with composed := [] }).set (!x) { (q.dir (!x)) with flushed := [] }, [])
   | _ => (q, [])
 
-/-- the operations this refinement covers (the others - ReadByte, ReadString, Read - have their slot accounting in
-    `pstep_inv` but no byte-level statement here) -/
+/-- the operations this refinement covers (ReadByte has its slot accounting in `pstep_inv` but no byte-level statement
+    here; Read is covered for the case that all requested bytes are buffered - in general it returns a non-empty prefix) -/
 def Covered : POp → Prop
-  | .write _ _ | .writeByte _ _ | .flush _ | .more _ | .readBytes _ _ | .peek _ _ | .discard _ _ | .release _ | .close _ => True
-  | _ => False
+  | .readByte _ => False
+  | _ => True
 
 /-- what Stream.readMore guarantees before a reader call runs: the requested bytes are buffered -/
 def Guard (s : PSys) : POp → Prop
-  | .readBytes x n | .peek x n | .discard x n => 0 < n ∧ n ≤ (s.get x).recv.len
+  | .readBytes x n | .peek x n | .discard x n | .readString x n | .readInto x n => 0 < n ∧ n ≤ (s.get x).recv.len
   | _ => True
 
 def PQS (N : Nat) (s : PSys) (q : QSys) : Prop := PQ N s.m s.a s.b q.ab q.ba
@@ -864,8 +867,34 @@ theorem pq_step {s s' : PSys} {q : QSys} {op : POp} (h : PQS N s q) (hc : Covere
     rw [QSys.set_both_self] at this
     exact ⟨this, rfl⟩
   | readByte x => exact absurd hc (by simp [Covered])
-  | readString x n => exact absurd hc (by simp [Covered])
-  | readInto x n => exact absurd hc (by simp [Covered])
+  | readString x n =>
+    obtain ⟨hx, put1, _⟩ := h.side x
+    obtain ⟨hpos, hle⟩ := hg
+    have hle' : n ≤ (content s.m (s.get x).recv.sl).length := by rw [← hx.yx.rlen]; exact hle
+    obtain ⟨m1, l1, d, e1, e2, e3, e4, e5, _⟩ := readString_spec s.m (s.get x).recv n hx.yx.rwf hpos hle'
+    simp only [pstep, e1] at e
+    simp only [Option.some.injEq] at e
+    subst e
+    have a := readString_acct s.m (s.get x).recv n m1 l1 d hx.pi.shape hx.pi.x.recv e1
+    have := put1 _ _ _ _ (hx.recvStep a n e3 hle' e4 e5)
+    rw [QSys.set_self_other] at this
+    refine ⟨this, ?_⟩
+    simp only [pout, e1, qstep, e2]
+    rw [← hx.yx.fl, take_append_of_le_length hle']
+  | readInto x n =>
+    obtain ⟨hx, put1, _⟩ := h.side x
+    obtain ⟨hpos, hle⟩ := hg
+    have hle' : n ≤ (content s.m (s.get x).recv.sl).length := by rw [← hx.yx.rlen]; exact hle
+    obtain ⟨m1, l1, d, e1, e2, e3, e4, e5, _⟩ := readInto_spec s.m (s.get x).recv n hx.yx.rwf hpos hle'
+    simp only [pstep, e1] at e
+    simp only [Option.some.injEq] at e
+    subst e
+    have a := readInto_acct s.m (s.get x).recv n m1 l1 d hx.pi.shape hx.pi.x.recv e1
+    have := put1 _ _ _ _ (hx.recvStep a n e3 hle' e4 e5)
+    rw [QSys.set_self_other] at this
+    refine ⟨this, ?_⟩
+    simp only [pout, e1, qstep, e2]
+    rw [← hx.yx.fl, take_append_of_le_length hle']
   | close x =>
     obtain ⟨hx, put1, _⟩ := h.side x
     simp only [pstep] at e
